@@ -16,6 +16,7 @@ import math, os, shutil, subprocess, sys
 from fractions import Fraction
 sys.path.insert(0, os.path.join(os.path.dirname(os.path.dirname(os.path.abspath(__file__))), "harness", "py"))
 from tools import vlib, translate_edit
+from tools.vlib import d2tok, tok2d
 import femmio, meshgeom
 
 PRE = {"m": "mi_", "e": "ei_", "h": "hi_"}
@@ -485,11 +486,19 @@ def main(argv):
                   "%saddarc(%s,%s,%s,%s,%s,5)" % (pre, n17(a[0]), n17(a[1]), n17(b[0]), n17(b[1]), n17(ang)),
                   "%sselectarcsegment(%s,%s)" % (pre, n17(mid.real), n17(mid.imag)), cmd, '%ssaveas("a%03d%s")' % (pre, t, femmio.EXT[kind])]
             lines += sc
-            cases.append((kind, op, sc, (ca, cb), want, ang, T(mid)))
+            # the same images through Model/EditGeom.lean (Float instance, the CComplex operators in the order of the C++)
+            if op == "mirror":
+                mreq = ["mirror %s %s %s %s %s %s" % (d2tok(p0.real), d2tok(p0.imag), d2tok(p1.real), d2tok(p1.imag), d2tok(z_.real), d2tok(z_.imag)) for z_ in (ca, cb)]
+            elif op == "copyrotate":
+                mreq = ["rotate %s %s %s %s %s" % (d2tok(c0.real), d2tok(c0.imag), d2tok(th), d2tok(z_.real), d2tok(z_.imag)) for z_ in (ca, cb)]
+            else:
+                mreq = ["translate %s %s %s %s" % (d2tok(dz.real), d2tok(dz.imag), d2tok(z_.real), d2tok(z_.imag)) for z_ in (ca, cb)]
+            cases.append((kind, op, sc, (ca, cb), want, ang, T(mid), mreq))
         open(os.path.join(d, "s.lua"), "w").write("\n".join(lines) + "\n")
         subprocess.run([os.path.join(build, "cfemm", "bin", "femmcli"), "--lua-script=s.lua"], cwd=d, stdout=subprocess.PIPE, stderr=subprocess.STDOUT,
                        text=True, timeout=600, errors="replace")
-        for t, (kind, op, sc, orig, want, ang, tmid) in enumerate(cases):
+        mrep, _, _ = vlib.run_lines([mx, "editgeom"], [l_ for c_ in cases for l_ in c_[7]])
+        for t, (kind, op, sc, orig, want, ang, tmid, mreq) in enumerate(cases):
             f = os.path.join(d, "a%03d%s" % (t, femmio.EXT[kind]))
             ck.case(("arc-copy", t, op, ang), nontrivial=True)
             stats["arc_copies_checked"] = stats.get("arc_copies_checked", 0) + 1
@@ -500,6 +509,22 @@ def main(argv):
             Pn = [complex(n[0], n[1]) for n in D["nodes"]]
             arcs = [(Pn[a_[0]], Pn[a_[1]], a_[2]) for a_ in D["arcs"] if a_[0] < len(Pn) and a_[1] < len(Pn)]
             has = lambda w: any(abs(x[0] - w[0]) < 1e-9 and abs(x[1] - w[1]) < 1e-9 and abs(x[2] - ang) < 1e-9 for x in arcs)
+            # ---- stage B: the end points of the copy are the model's images, bit for bit
+            mimg = []
+            for r_ in mrep[2 * t:2 * t + 2]:
+                tk = r_.split()
+                mimg.append((tok2d(tk[0]), tok2d(tk[1])) if len(tk) == 2 and tk[0] != "bad-op" else None)
+            if None in mimg or len(mimg) != 2:
+                ck.obligation_broken("correspondence editgeom: the model driver did not answer", dict(script="\n".join(sc)))
+            else:
+                have = {(n[0], n[1]) for n in D["nodes"]}
+                stats["copy_images_vs_model"] = stats.get("copy_images_vs_model", 0) + 2
+                miss = [q for q in mimg if q not in have]
+                if miss:
+                    near = min(have, key=lambda h_: math.hypot(h_[0] - miss[0][0], h_[1] - miss[0][1]))
+                    ck.obligation_broken("correspondence editgeom: %s image of an arc end point: Model/EditGeom.lean gives (%r, %r), the saved drawing has (%r, %r) (%d / %d ulp apart)"
+                                         % (op, miss[0][0], miss[0][1], near[0], near[1], vlib.ulp_diff(miss[0][0], near[0]), vlib.ulp_diff(miss[0][1], near[1])),
+                                         dict(script="\n".join(sc)))
             if len(arcs) > 2:
                 # the image crosses the original: both are split at the crossing (the clause on crossings, examined for lines above)
                 stats["arc_copies_split_by_crossing"] = stats.get("arc_copies_split_by_crossing", 0) + 1
